@@ -42,7 +42,7 @@ ASSUMPTIONS = [
   "contact-sensor slots are compared as a multiset (contact order is engine specific); truncated (nmatch>num) unordered "
   "sensors are judged on their 'found' field only",
 ]
-BUDGET = {"quick": 150, "thorough": 1500}
+BUDGET = {"quick": 300, "thorough": 1500}
 
 S = mujoco.mjtSensor
 ST = {int(v): k[7:].lower() for k, v in S.__members__.items()}
